@@ -85,6 +85,35 @@ var c18ArgsMenu = []string{
 	`{"request_ip_range":[["10.10.1.1~10.10.1.3"]],"common":{"ipinfos":[{"ip":"10.99.0.1/24","vlan":0,"gateway":"10.99.0.254"}]}}`,
 }
 
+// jsonLists returns every JSON array of 1..maxLen elements from the element menu (repetitions and adjacent equal elements
+// included: index-shifting bugs in list clean-up code need two equal neighbours).
+func jsonLists(elems []string, maxLen int) []string {
+	var out []string
+	var rec func(cur []string)
+	rec = func(cur []string) {
+		if len(cur) > 0 {
+			out = append(out, "["+strings.Join(cur, ",")+"]")
+		}
+		if len(cur) == maxLen {
+			return
+		}
+		for _, e := range elems {
+			rec(append(append([]string{}, cur...), e))
+		}
+	}
+	rec(nil)
+	return out
+}
+
+func init() {
+	for _, l := range jsonLists([]string{`null`, `["10.10.1.1"]`, `[]`, `[null]`, `"x"`}, 2) {
+		c18ArgsMenu = append(c18ArgsMenu, `{"request_ip_range":`+l+`}`)
+	}
+	for _, l := range jsonLists([]string{`null`, `{"ip":"10.10.1.2/24","vlan":2,"gateway":"10.10.1.254"}`, `{"ip":null}`}, 2) {
+		c18ArgsMenu = append(c18ArgsMenu, `{"common":{"ipinfos":`+l+`}}`)
+	}
+}
+
 type c18Owner struct {
 	Name string
 	Refs []metav1.OwnerReference
@@ -275,6 +304,14 @@ func c18HTTPJob() Job {
 			`[{"nodeSubnets":["::/0"],"ips":["10.0.0.2"],"subnet":"10.0.0.0/24","gateway":"10.0.0.1"}]`,
 			`[{"routableSubnet":"","ips":["10.0.0.2"],"subnet":"10.0.0.0/24","gateway":"10.0.0.1"}]`,
 			`[` + good + `,` + good + `]`, `[{"nodeSubnets":["10.0.1.0/24"],"ips":["10.0.0.2"],"subnet":"","gateway":"10.0.0.1"}]`}
+		good2 := poolText("10.10.2.0/24", "10.10.2.254", []string{"10.10.2.1"}, "nodeSubnets")
+		texts = append(texts, jsonLists([]string{`null`, good, good2, `{}`, `1`}, 3)...)
+		for _, ns := range jsonLists([]string{`null`, `"10.0.1.0/24"`, `"x"`}, 3) {
+			texts = append(texts, `[{"nodeSubnets":`+ns+`,"ips":["10.0.0.2"],"subnet":"10.0.0.0/24","gateway":"10.0.0.1"}]`)
+		}
+		for _, ips := range jsonLists([]string{`null`, `"10.0.0.2"`, `"10.0.0.4~10.0.0.5"`, `1`}, 3) {
+			texts = append(texts, `[{"nodeSubnets":["10.0.1.0/24"],"ips":`+ips+`,"subnet":"10.0.0.0/24","gateway":"10.0.0.1"}]`)
+		}
 		for _, txt := range texts {
 			what := "reload config " + trunc(txt, 100)
 			w.ConfigMap = txt
@@ -357,6 +394,26 @@ func c18DaemonJob() Job {
 		anns := []string{"a", "a,", ",a", "a//b", "a/b/c", "a@b@c", "@", "/", "a@", " ", "zz", "[", `[{"name":""}]`, `[{"name":"a","interface":""}]`, `[{"namespace":"x"}]`, `[null]`, `{}`, `"a"`, `[{"name":"a"},{"name":"a"},{"name":"a"},{"name":"b"}]`,
 			strings.Repeat("a,", 50) + "a"}
 		exts := []string{"", "{", "null", `{"common":null}`, `{"common":"x"}`, `{"common":{"ipinfos":null}}`, `{"common":{"a;b":"c=d"}}`, `{"common":{"ipinfos":[{"ip":"10.1.1.1/24"}],"` + strings.Repeat("k", 200) + `":1}}`}
+		type annCase struct{ a, e string }
+		var extra []annCase
+		for _, a := range jsonLists([]string{`null`, `{"name":"a"}`, `{"name":"zz"}`, `{}`, `1`}, 3) {
+			extra = append(extra, annCase{a, ""}, annCase{a, exts[5]})
+		}
+		for _, l := range jsonLists([]string{`null`, `{"ip":"10.10.1.2/24","vlan":2,"gateway":"10.10.1.254"}`, `{"ip":null}`, `{}`}, 3) {
+			extra = append(extra, annCase{"a", `{"common":{"ipinfos":` + l + `}}`}, annCase{"", `{"common":{"ipinfos":` + l + `}}`})
+		}
+		for i, ac := range extra {
+			pn := fmt.Sprintf("gen%d", i)
+			h.putPod(cniPod{Name: pn, Networks: ac.a, ExtendedArg: ac.e})
+			what := fmt.Sprintf("ADD+DEL pod{networks=%q args=%q}", ac.a, ac.e)
+			if !c.guard("daemon", what, func() {
+				h.request("ADD", pn, pn, "eth0")
+				h.request("DEL", pn, pn, "eth0")
+			}) || !probe(what) {
+				return c.r.toScen(name, t0, nil)
+			}
+			c.r.distinct[hashOf(ac.a, ac.e)] = true
+		}
 		for i, a := range anns {
 			for j, e := range exts {
 				pn := fmt.Sprintf("ann%d-%d", i, j)
@@ -373,7 +430,7 @@ func c18DaemonJob() Job {
 		}
 		c.guard("daemon", "ADD for a pod that does not exist", func() { h.request("ADD", "ghost", "ghost", "eth0") })
 		c.r.samples = append(c.r.samples, "POST /cni "+trunc(raws[10], 100), fmt.Sprintf("ADD+DEL pod{networks=%q args=%q}", anns[3], exts[3]))
-		return c.r.toScen(name, t0, map[string]int{"raw_bodies": len(raws), "annotations": len(anns) * len(exts)})
+		return c.r.toScen(name, t0, map[string]int{"raw_bodies": len(raws), "annotations": len(anns)*len(exts) + len(extra)})
 	}}
 }
 
